@@ -35,6 +35,9 @@ INSUFFICIENT = [
     ("duplicate vertices (np.unique)", lambda s: ("ret", "<neighbour-diff>") in s[1] and ("ret", "numpy.unique") not in s[1], "adjacent-only",
      "duplicates are looked for among consecutive vertices of the given order only (difference of each row with its successor): "
      "a vertex repeated later in the list, e.g. (A, B, A, C), is accepted"),
+    ("convex position 2-D (_is_convex)", lambda s: ("ret", "<open-chain>") in s[1] and ("ret", "scipy.spatial.ConvexHull") not in s[1], "open-chain",
+     "the turn test runs over consecutive pairs x[:-1], x[1:] of the ring of vertices only: the corner at the wrap-around of the ring is "
+     "never tested, so a point inside the hull that happens to come first in the ring is accepted as a vertex of a convex polygon"),
     ("convex position 3-D (ConvexHull vertex count)",
      lambda s: ("ret", "<count:hull>") in s[1] and ("ret", "<count:input>") not in s[1],
      "hull-against-itself",
